@@ -148,6 +148,14 @@ def cli_leg(rep, tier):
         if lib != a and b"@" not in doc:        # e-mail autolinks are obfuscated with the process-global generator (history: C05)
             rep.add_violation("entry:differs:cli-vs-library:%s" % ("text" if fname != "fodt" else fname), "CLI -t %s %s differs from mmd_d_string_convert_to_data" % (fname, " ".join(fl)),
                               dict(src=doc[:300].decode("latin-1"), format=fname, flags=fl), replay=dict(kind="cli"))
+    # the language option: -l CODE must select what the library's language argument selects
+    LDOC = b"\"double\" 'single' text[^f] cite[#c] term[?g]\n\n[^f]: n\n[#c]: C\n[?g]: G\n"
+    for li, code in enumerate(["en", "es", "de", "fr", "nl", "sv", "he"]):
+        for fname, fmt in (("html", 0), ("latex", 2), ("fodt", 5)):
+            a = subprocess.run([cli, "-l", code, "-t", fname], input=LDOC, capture_output=True).stdout
+            mmd.rng_fresh(); lib = mmd.convert_to_data(LDOC, mmd.EXT_DEFAULT, fmt, li, None, 1)
+            if a != lib:
+                rep.add_violation("entry:differs:cli-language-option:%s" % code, "CLI -l %s -t %s differs from the library called with language %d" % (code, fname, li), dict(src=LDOC.decode(), format=fname, flags=["-l", code]), replay=dict(kind="cli"))
     shutil.rmtree(tmp, ignore_errors=True)
     rep.add_level("cli", len(jobs) * 4, len(jobs) * 4, True, time.time() - t0, len(jobs), "CLI stdin->stdout, file->stdout, -o, -b (bare name, relative and absolute path with directories) and the library on a sub-grid of sources x text formats x flag sets")
 
